@@ -20,6 +20,11 @@ class ErrT:          # Err e   (Rust-level error of a Result-returning function)
         self.e = e
 
 
+class Catch:         # (s, v) := sub run to completion (an Err of sub does not leave the function) ; rest    (state monad "s")
+    def __init__(self, v, sub, rest):
+        self.v, self.sub, self.rest = v, sub, rest
+
+
 class MonT:          # a monadic Gallina expression in tail position
     def __init__(self, m, h=False):
         self.m, self.h = m, h
@@ -71,7 +76,7 @@ def effectful(t):
         return False
     if isinstance(t, (Fail, Bind, ErrT, MonT)):
         return True
-    if isinstance(t, SetState):
+    if isinstance(t, (SetState, Catch)):
         return True
     if isinstance(t, BindT):
         return effectful(t.sub) or effectful(t.rest)
@@ -117,8 +122,8 @@ def lpat(p):
 def render(t, mon, ind):
     """Term -> Gallina text. mon: render in the outcome monad."""
     pad = "  " * ind
-    if mon == "h":
-        return render_h(t, ind)
+    if mon in ("h", "s"):
+        return render_h(t, ind, mon)
     if isinstance(t, SetState) or (isinstance(t, (Bind, MonT)) and t.h):
         raise TypeError("state-monad term outside a state function")
     if isinstance(t, Ret):
@@ -167,38 +172,43 @@ def render(t, mon, ind):
     raise TypeError(t)
 
 
-def render_h(t, ind):
+def render_h(t, ind, P="h"):
     """Term -> Gallina text in the state monad of Model/Replica.v: hres A = rstate * list effect * outcome rerr A.
     The current state is always the variable `s` (rebound by every hbind continuation and every SetState)."""
     pad = "  " * ind
     if isinstance(t, Ret):
-        return pad + "hret s " + atom(t.e)
+        return pad + P + "ret s " + atom(t.e)
     if isinstance(t, Fail):
-        return pad + "hpanic s " + t.kind
+        return pad + P + "panic s " + t.kind
     if isinstance(t, ErrT):
-        return pad + "hfail s " + atom(t.e)
+        return pad + P + "fail s " + atom(t.e)
     if isinstance(t, MonT):
-        return pad + (t.m if t.h else f"hlift s {atom(t.m)}")
+        return pad + (t.m if t.h else f"{P}lift s {atom(t.m)}")
     if isinstance(t, SetState):
-        return pad + f"let s := {t.e} in\n" + render_h(t.rest, ind)
+        return pad + f"let s := {t.e} in\n" + render_h(t.rest, ind, P)
     if isinstance(t, Bind):
-        m = atom(t.m) if t.h else f"(hlift s {atom(t.m)})"
+        m = atom(t.m) if t.h else f"({P}lift s {atom(t.m)})"
         if isinstance(t.rest, Ret) and t.rest.e == t.v:
-            return pad + (t.m if t.h else f"hlift s {atom(t.m)}")
-        return pad + f"hbind {m} (fun s {t.v} =>\n" + render_h(t.rest, ind) + ")"
+            return pad + (t.m if t.h else f"{P}lift s {atom(t.m)}")
+        return pad + f"{P}bind {m} (fun s {t.v} =>\n" + render_h(t.rest, ind, P) + ")"
     if isinstance(t, BindT):
         if effectful(t.sub):
-            return (pad + "hbind (\n" + render_h(t.sub, ind + 2) + f") (fun s {lpat(t.pat)} =>\n" + render_h(t.rest, ind) + ")")
-        return (pad + f"let {lpat(t.pat)} :=\n" + render(t.sub, False, ind + 2) + " in\n" + render_h(t.rest, ind))
+            return (pad + P + "bind (\n" + render_h(t.sub, ind + 2, P) + f") (fun s {lpat(t.pat)} =>\n" + render_h(t.rest, ind, P) + ")")
+        return (pad + f"let {lpat(t.pat)} :=\n" + render(t.sub, False, ind + 2) + " in\n" + render_h(t.rest, ind, P))
     if isinstance(t, Let):
-        return pad + f"let {lpat(t.pat)} := {t.e} in\n" + render_h(t.rest, ind)
+        return pad + f"let {lpat(t.pat)} := {t.e} in\n" + render_h(t.rest, ind, P)
     if isinstance(t, If):
-        return (pad + f"if {t.c}\n" + pad + "then\n" + render_h(t.a, ind + 1) + "\n" + pad + "else\n" + render_h(t.b, ind + 1))
+        return (pad + f"if {t.c}\n" + pad + "then\n" + render_h(t.a, ind + 1, P) + "\n" + pad + "else\n" + render_h(t.b, ind + 1, P))
     if isinstance(t, Match):
         s = pad + f"match {t.scrut} with\n"
         for p, a in t.arms:
-            s += pad + f"| {p} =>\n" + render_h(a, ind + 2) + "\n"
+            s += pad + f"| {p} =>\n" + render_h(a, ind + 2, P) + "\n"
         return s + pad + "end"
+    if isinstance(t, Catch) and P == "s":
+        return (pad + f"let '(s, {t.v}) :=\n" + render_h(t.sub, ind + 2, P) + " in\n" + render_h(t.rest, ind, P))
+    if isinstance(t, Fold) and P == "s":
+        return (pad + f"sbind (sfold (fun s {lpat(t.spat)} {lpat(t.epat)} =>\n" + render_h(t.body, ind + 2, P)
+                + f")\n{pad}    {atom(t.lst)} s {atom(t.init)}) (fun s {lpat(t.spat)} =>\n" + render_h(t.rest, ind, P) + ")")
     raise TypeError(f"{type(t).__name__} is not available in a state function")
 
 
